@@ -234,6 +234,8 @@ def impl_main(argv):
     for c in cases:
         logging.getLogger(c['name']).setLevel(c['threshold'])
     install_tap()
+    import gc
+    gc.disable()      # see harness/props/c14.py (CPython 3.12.1 thread-start / finalizer deadlock); the run is short
     results = [None] * len(cases)
     lock = threading.Lock()
     nxt = [0]
